@@ -8,7 +8,7 @@ Lemma cov.zero: from the normal equations sum_i Sc[i,j]*R[i,l] = 0 and centred c
 import z3
 from z3 import Function, Int, IntSort, Real, RealSort
 
-from ..contracts.corr_remover import Fit, SplitX, Transform
+from ..contracts.corr_remover import CreateLookup, Fit, SplitX, Transform
 from ..pyvc import solve, verify
 
 
@@ -49,7 +49,15 @@ def run_deductive(rep):
                 can = [("integer_ids_taken_as_positions", verify.replace_expr("self.lookup_[i]", "(i if isinstance(i, int) else self.lookup_[i])")),
                        ("sensitive_columns_sorted", verify.replace_expr("X[:, sensitive]", "X[:, sorted(sensitive)]"))]
             sx.append((SplitX(m_, k_, int_ids), can))
+    # the callee contract Fit relies on ('lookup_ is the column table of the X of THIS call'), discharged on the real _create_lookup for 1..3 columns of any names
+    for kc in (1, 2, 3):
+        for stale in (False, True):
+            can = [("table_rebuilt_only_when_missing", verify.replace_expr("{c: i for i, c in enumerate(X.columns)}", "getattr(self, 'lookup_', None) or {c: i for i, c in enumerate(X.columns)}"))] if (kc, stale) == (2, True) else []
+            sx.append((CreateLookup(kc, stale), can))
     verify.verify_many(rep, sx, label="S")
     lemma_cov_zero(rep)
     from ..static import frames
-    frames.report(rep, classes=["CorrelationRemover"], conditions=("F1", "F4", "F5", "F6"))      # transform keeps no private state and never writes the fitted coefficients (F5/F6)
+    # transform keeps no private state and never writes the fitted coefficients (F5/F6); fit computes mean / coefficients / column table from the data of THIS call
+    # (F3: no fitted attribute is read before it is written - a column table or a mean surviving from an earlier fit decorrelates the wrong columns).  The one
+    # recorded F3 effect (_n_features_in_: a refit on another width raises instead of fitting) is C19's finding and produces no output at all, so it is left to C19.
+    frames.report(rep, classes=["CorrelationRemover"], conditions=("F1", "F3", "F4", "F5", "F6"), ignore={("CorrelationRemover", "F3", "_n_features_in_")})
